@@ -14,7 +14,13 @@ for d in sorted(glob.glob(os.path.join(ROOT, 'seeded', '*'))):
     args = [a for a in sys.argv[1:] if not a.startswith('--')]
     if args and not any(sid.startswith(a) for a in args):
         continue
-    if '--old-rounds' in sys.argv and ('-r3-' in sid or '-r4-' in sid):
+    if '--old-rounds' in sys.argv and ('-r3-' in sid or '-r4-' in sid or '-r5-' in sid):
+        continue
+    if '--new-rounds' in sys.argv and not ('-r3-' in sid or '-r4-' in sid or '-r5-' in sid):
+        continue
+    if '--half-a' in sys.argv and int(sid[1:3]) > 9:
+        continue
+    if '--half-b' in sys.argv and int(sid[1:3]) <= 9:
         continue
     if os.path.exists(os.path.join(ROOT, 'regress.json')) and sid in json.load(open(os.path.join(ROOT, 'regress.json'))):
         res[sid] = json.load(open(os.path.join(ROOT, 'regress.json')))[sid]
